@@ -150,7 +150,7 @@ spec("C09", "sync makes targets agree",
      not_decided="that the parsed targets equal the truth IR (values); method target absent from the file (a bare function is appended)")
 
 spec("C10", "sync idempotent / truth untouched / truthful report",
-     [F.rule_file0, F.rule_file1_truth, F.rule_file1b, F.rule_file2, F.rule_file2b, C.rule_call_dispatch, det3("sync", "conformance.ground_truth")],
+     [F.rule_file0, F.rule_file1_truth, F.rule_file1b, F.rule_file2, F.rule_file2b, C.rule_call_dispatch, F.rule_file5, det3("sync", "conformance.ground_truth")],
      "Necessary conditions: (FILE-1) every call from the sync worker that can reach a write sink is guarded by a comparison of the target filename with the truth file; (FILE-1b) both sides of that comparison are canonicalised by the same path functions; (CALL-SIB) the create / append / replace branches emit with the same option flags; "
      "(FILE-2) on every enumerated path of _conform_filename the returned and printed changed-flag is true iff a write lies on the path; (FILE-2b) the in-place rewrite is "
      "control-dependent on an AST-inequality test. (DET-3, scoped) no function on this property's code path writes state that outlives the call (module globals/objects, function or class attributes, mutated mutable defaults, memoised mutable results): the conversion is not history-dependent.",
